@@ -36,10 +36,12 @@ class Spec(L.Spec):
     go_on_after_refusal = True       # a refused push_stream is a no-op: what follows it is judged as if it had not been made
 
     def __init__(self, key):
-        _, role, tier = key
+        role, tier = key[1], key[2]
+        self.cfgname = key[3] if len(key) > 3 else "default"
+        self.cfg = {"default": {}, "nonorm": {"normalize_outbound_headers": False}}[self.cfgname]
         client = role == "client"
-        super().__init__(client, 6 if tier == "quick" else 8)
-        self.name = "c22-%s-%s" % (role, tier)
+        super().__init__(client, (6 if tier == "quick" else 8) - (1 if self.cfg else 0))
+        self.name = "c22-%s%s-%s" % (role, "" if not self.cfg else "-" + self.cfgname, tier)
         f, aux = self.sids
         keep = []
         for lab in self.menu:
@@ -61,6 +63,11 @@ class Spec(L.Spec):
         else:
             extra += ["rx:ep:0", "rx:ep:1", "l:push:2:4", "l:pushrace:%d:2" % f, "l:pushrace:%d:4" % f]
         self.menu = keep + sorted(set(extra))
+
+    def initial(self):
+        st = L.LState(self.client, self.upgraded, **self.cfg)
+        self.init_extra(st)
+        return [("handshaken", st)]
 
     def init_extra(self, st):
         st.extra = {"rep": 1, "lep": 1, "pend": ()}
@@ -264,3 +271,5 @@ def make_spec(key):
 def run(ctx):
     for role in ("server", "client"):
         ctx.explore(("c22", role, ctx.tier), time_budget=None if ctx.tier == "quick" else 420)
+    # outbound normalisation off (validation stays on): an invalid request list is refused all the same
+    ctx.explore(("c22", "server", ctx.tier, "nonorm"), time_budget=None if ctx.tier == "quick" else 200)
